@@ -150,7 +150,7 @@ func (bridge *ExprBridge) preprocessCached(expression string) string {
 	if v, ok := bridge.preprocessCache.Load(expression); ok {
 		return v.(string)
 	}
-	result := expression
+	result := NormalizeFunctionNames(expression)
 	if bridge.ContainsBacktickIdentifiers(result) {
 		if processed, err := bridge.PreprocessBacktickIdentifiers(result); err == nil {
 			result = processed
